@@ -8,6 +8,9 @@ with and without INTLABEL / a structure instantiation, EQU/SET lines, references
 branches of one construct; after the construct every symbol is probed (IFDEF / IFNDEF / DEFINED() / SYMTYPE() / SWITCH
 DEFINED() emitting the symbol's value or FFFF, IFUSED / IFNUSED) - only the symbols of selected leaves may exist; arbitrary (mostly ill-formed) statement streams run one per file because they leave constructs
 open (leaves are `message "<marker>"` because asl deletes the code file when an error was reported).
+Conditions whose truth comes from the environment or from the history of the pass (IFDEF/IFUSED/IFEXIST and counterparts over symbols that are
+defined / referenced in front, behind, in skipped branches, never; one-pass and multi-pass programs; programs spread over INCLUDE files in other
+directories, -i directories, working directory): c12_env.py, Spec/Model CondEnv.lean, Props/C12_Env.lean, driver mode `c12env`.
 Ways a pass can end (`end_streams`): the text of a skeleton cut at any point (constructs left open at the end of the file), END
 lines (plain, with entry point, issued by a macro / a nested macro / a REPT body, issued inside a conditional that the macro
 itself opened) put at any point - in selected and in skipped branches, at any depth, followed by nothing, by the rest of the
@@ -22,6 +25,7 @@ from concurrent.futures import ThreadPoolExecutor
 
 from .. import common
 from ..common import log
+from . import c12_env
 
 SIG_IFB = "ifb-every-second-argument-skipped"
 SIG_ARMLESS = "dead-armless-switch-warns"
@@ -979,6 +983,12 @@ def run(args):
                 nstream_samples += 1
                 samples.append(dict(tag=tag, source=src[len(HEADER):][:500], observed=o, verdict=ans[:300]))
 
+        # ---------------- conditions that test the symbol table / the file system: passes, include files, search paths (c12_env.py)
+        ev_env, distinct_env = c12_env.run_stream(args, bdir, wd, drv_ok, cfgs(cfg), mem_of_pfile, status_str, dist, spec_fail, corr_fail,
+                                                  proof_problems, samples)
+        evaluations += ev_env
+        distinct |= distinct_env
+
         # ---------------- the calibration probes are themselves cases (witnesses of the known findings)
         for tag, toks, o in (("probe:ifb", ["I2:b001", "L1", "EN0", "L2"], probes[0]), ("probe:elsecase", ["EC0", "L1"], probes[1]),
                              ("probe:deadswitch", ["I1:e0", "S1:i1", "ED0", "EN0", "L1"], probes[2])):
@@ -994,6 +1004,7 @@ def run(args):
         "calibration probes (`ifb ,x`, lone `elsecase`, skipped `switch/endcase`) choose the model's Cfg; the spec does not depend on them",
         "correspondence: real asl vs Model/Cond on generated sources (differential test)",
         "generator's spelling of conditions (literal expressions, defined/used symbols, existing file, blank arguments) is the oracle for the evaluated truth values",
+        "conditions that test the environment (c12_env.py): the harness inlines the INCLUDE files of a program into one text and names, for every IFEXIST, the file it is written in (what INCLUDE does to the current file name is C11's subject); the number of passes is read from the assembler's own summary; the flag 'IFEXIST also searches the working directory' of the model is probed on the real binary; the INCLUDE oracle (an INCLUDE of the same name in a file of the same directory, assembled by the real asl) must agree with the SPEC's file search",
         "symbols: after each packed skeleton every symbol its leaves are about is probed (IFDEF/IFNDEF/DEFINED()/SYMTYPE()/SWITCH DEFINED(): value or FFFF; IFUSED/IFNUSED); the set found defined / referenced is compared with Spec `definedBy (selB b)` / `usedBy (selB b)` and with the model's definition / reference events, label values with the address of the leaf's own code"])
     res.coverage.update(
         evaluations=evaluations, distinct_nontrivial=len([t for t in distinct if t.count(" ") >= 1]),
@@ -1006,6 +1017,7 @@ def run(args):
         "IF/ELSEIF expressions are evaluated correctly by the expression evaluator (C08's subject): only trivially true/false spellings are used",
         "a line that issues END is `end` / `end <entry point>` / a call of a macro (directly or through another macro) or a REPT whose body issues it; the model treats all of them as 'reading stops here' (as.c flushes the running expansions without assembling them)",
         "leaves about symbols occur in the packed well-formed skeletons only (ill-formed streams keep plain leaves); labels stand in front of ordinary lines, not in front of the IF/ELSE/ENDIF/SWITCH/CASE lines themselves",
+        "environment stream: referenced symbols are defined in a line that is certainly assembled (in front of or behind the tests: forward references force further passes), SET symbols are only referenced after a definition in front; names with a path specification never exist below a -i directory (the manual's 'the search list is ignored' vs FSearch is C11's subject); a -i list is always given (without one the empty list makes FSearch look into the working directory); SWITCH constructs of this stream always have ELSECASE (the 'no CASE hit' warning is repeated in every pass and the error file does not separate the passes); symbols local to sections are not generated",
         "the symbol probes are themselves conditional statements (live, depth 1) and use IFDEF/DEFINED/SYMTYPE/IFUSED as the observation of the symbol table"]
     return common.conclude(res, proof_problems, spec_fail, corr_fail, evaluations)
 
@@ -1022,5 +1034,6 @@ def replay(args):
             if pb:
                 print("code file cells:", sorted((mem_of_pfile(pb) or {}).items()))
     if "request" in d:
-        print(common.driver("c12", [d["request"]])[0])
+        # (programs of the environment stream: the files are listed in `source`, the command line in its first line)
+        print(common.driver("c12env" if str(d.get("tag", "")).startswith("env:") else "c12", [d["request"]])[0])
     return 0
